@@ -7,8 +7,8 @@
 //! renderer / walker produced.
 //!
 //! case lines
-//!   `det run f:<0|1|2> exc:<0|1> lim:<n>.<seed> alias:<0..3> mods:<path>=<ok|nf|pe>,.. thr:<m.m.m;m.m;..>
-//!            sched:<d.d.d|d.d.d|..> runs:<N> x:<subset of BRT> rs:<seed>`
+//!   `det run f:<0|1|2> exc:<0|1> lim:<n>.<seed> alias:<0..4> mods:<path>=<ok|nf|pe>[@<g>],.. thr:<m.m.m;m.m;..>
+//!            sched:<d.d.d|d.d.d|..> runs:<N> x:<subset of BRT> rs:<seed> evil:<0|1|2>`
 //!       f       ProcessorOptions: 0 default, 1 stable_all, 2 unstable_all
 //!       exc     add an exception stream (SIGSEGV on the first thread)
 //!       lim     `/proc/<pid>/limits` stream with n limit lines (names/values from the seed); 0: none
@@ -16,7 +16,11 @@
 //!               `x29:` (aliases of one register) with different rules; 2 `fp:` + `x29: .undef`;
 //!               3 like 1 plus a delta record overriding `fp:`; 4: an AMD64 dump instead (`$rbp:` … labels,
 //!               no register aliases on that architecture; code bytes at the crashing instruction)
-//!       mods    module list (ARM64 Linux dump); path = code_file; what the supplier answers
+//!       mods    module list (ARM64 Linux dump); path = code_file; what the supplier answers; `@g`: the
+//!               module carries the PDB70 CodeView record and timestamp of group g (modules of one
+//!               group share debug file, debug id and code id but not the code file)
+//!       evil    evil JSON: 0 none; 1 ModuleSignatureInfo with every module under one certificate;
+//!               2 one module listed under three certificates
 //!       thr     one call chain per thread: module index of every frame, innermost first
 //!       sched   supplier schedules: per module the number of suspensions before it answers; the
 //!               first table is the base schedule
@@ -24,6 +28,9 @@
 //!       x       executors every schedule is run under: B hand-rolled poll-to-completion,
 //!               R randomised poller (seed rs: releases waiting supplier calls in random order,
 //!               spurious polls), T multi-thread tokio runtime (supplier suspends in spawned tasks)
+//!   `det file d:<testdata dump> f:<0|1|2> k:<max suspensions> runs:<N> x:<subset of BRT> rs:<seed>`
+//!       a dump of the repository's testdata with the repository's symbol directory behind the same
+//!       gates (oracle only, no model)
 //!   `det cfi init:<r=v+|r=v-,..|-> rules:<hexlabel>=<v|->,..|-> sh:<seed>`
 //!       direct call of `walk_with_stack_cfi` (exported by the `fuzz` feature) with a twin of
 //!       `CfiStackWalker` built on the real `CONTEXT_ARM64`; the rules are rendered into INIT and
